@@ -177,6 +177,8 @@ def twin_file_descriptions(chk):
     import c08
     from common import b64
     for nm, flat_text, main_text, files in c08.twin_projects():
+        if not nm.startswith("twins"):
+            continue          # (the long include chains of C08 hold no descriptions)
         ff = {"main.jst": b64(main_text)}
         ff.update({k: b64(v) for k, v in files.items()})
         o = harness("run", [{"id": "tw", "files": ff, "root": "main.jst"}])["tw"]
